@@ -1407,8 +1407,9 @@ def interp_envelope(X, mode='upper', interp_method='splrep', extrema_opts=None,
     if locs is None:
         return None
 
-    # Run interpolation on envelope
-    t = np.arange(locs[0], locs[-1])
+    # Run interpolation on envelope - evaluate at the integer sample times,
+    # the first padded location is not an integer with parabolic extrema
+    t = np.arange(np.ceil(locs[0]), locs[-1])
     if interp_method == 'splrep':
         f = interp.splrep(locs, pks)
         env = interp.splev(t, f)
@@ -1419,7 +1420,7 @@ def interp_envelope(X, mode='upper', interp_method='splrep', extrema_opts=None,
         pchip = interp.pchip(locs, pks)
         env = pchip(t)
 
-    t_max = np.arange(locs[0], locs[-1])
+    t_max = np.arange(np.ceil(locs[0]), locs[-1])
     tinds = np.logical_and((t_max >= 0), (t_max < X.shape[0]))
 
     env = np.array(env[tinds])
